@@ -621,3 +621,72 @@ def install_re():
 
 
 install_re()
+
+
+# ---------------------------------------------------------------------------
+# list(<symbolic iterable>) known pointwise (T-STD: list(map(f, s))[k] == f(s[k]), len(list(map(f, s))) == len(s))
+
+
+class LazyList:
+    """a list whose k-th element is at(ex, k); no quantifier, elements are produced on demand at the index asked"""
+
+    def __init__(self, length, at, label="list"):
+        self.length, self.at, self.label = length, at, label
+
+    def __repr__(self):
+        return f"<LazyList {self.label}>"
+
+
+def _lazy_list_hook(ex, it):
+    ex.assumptions_used.add("T-STD: list(map(f, s)) / [f(x) for x in s] is the list with f(s[k]) at position k")
+    return LazyList(it.length, it.at, f"list({it.label})")
+
+
+def _lazy_iter(ex, v):
+    if isinstance(v, LazyList):
+        it = SymIter(v.length, v.at, v.label)
+        it.lazy = v
+        return it
+    return NotImplemented
+
+
+def _lazy_len(ex, v):
+    if isinstance(v, LazyList):
+        return concretize(SV(z3.simplify(v.length), INT))
+    return NotImplemented
+
+
+def _lazy_getitem(ex, obj, key):
+    if isinstance(obj, LazyList):
+        if isinstance(key, slice):
+            raise Unsupported("slice of a lazily known list")
+        kt = term(key, INT)
+        n = obj.length
+        if not ex.branch(z3.And(kt >= -n, kt < n), "idx-ok"):
+            ex.raise_(IndexError, "list index out of range", tag="index")
+        return obj.at(ex, z3.If(kt >= 0, kt, n + kt))
+    return NotImplemented
+
+
+def _lazy_comprehension(ex, e, frame, it, gi):
+    import ast
+    from .execu import Frame
+    lz = getattr(it, "lazy", None)
+    if lz is None or gi != 0 or len(e.generators) != 1 or e.generators[0].ifs or not isinstance(e, ast.ListComp):
+        return NotImplemented
+    g = e.generators[0]
+
+    def at(ex_, i):
+        f2 = Frame(frame.fi, {}, frame, frame.module)
+        f2.self_cls = frame.self_cls
+        ex_.assign(g.target, lz.at(ex_, i), f2)
+        return ex_.eval(e.elt, f2)
+
+    return LazyList(lz.length, at, f"[... for ... in {lz.label}]")
+
+
+M.LIST_HOOKS.append(_lazy_list_hook)
+M.ITER_HOOKS.append(_lazy_iter)
+M.LEN_HOOKS.append(_lazy_len)
+M.GETITEM_HOOKS.append(_lazy_getitem)
+M.COMPREHENSION_HOOKS.append(_lazy_comprehension)
